@@ -419,9 +419,13 @@ def execute(plan):
 
     delivered_resp = set()  # (conn id, api, correlation id) responses that reached a client
 
+    leave_acks = {}  # client id -> [(seq, t)] LeaveGroup replies that reached the member
+
     def on_cr(conn, tag):
         if isinstance(tag, tuple) and len(tag) == 2:
             delivered_resp.add((conn.id, tag[0], tag[1]))
+            if tag[0] == "LeaveGroup":
+                leave_acks.setdefault(conn.owner, []).append((world.log.seq, world.now()))
 
     world.subscribe("client_response", on_cr)
     world.subscribe("offset_fetch_reply", on_of)
@@ -775,7 +779,7 @@ def execute(plan):
     res["nontrivial"] = bool(world.fault_counts) or len(plan["members"]) >= 2
     if res["status"] == "ok":
         ctx = {"members": members, "served": served, "env_log": env_log, "result": result,
-               "delivered_resp": delivered_resp, "served_key": served_key}
+               "delivered_resp": delivered_resp, "served_key": served_key, "leave_acks": leave_acks}
         if prop == "C04":
             oracle_c04(plan, world, cl, ctx)
         elif prop == "C05":
@@ -887,18 +891,37 @@ def check_deliveries(plan, world, cl, ctx, prop):
                             "next_visible": nxt.get(a)})
                         break
         # a member that left the group by itself (LeaveGroup) owns nothing until it has
-        # completed a SyncGroup again
-        leaves = [e for e in cl.groups.ledger if e["kind"] == "leave" and e.get("client") == m.cid
-                  and e.get("code") == 0]
-        if leaves:
+        # completed a SyncGroup again.  "Left" as the member knows it: from the moment the
+        # LeaveGroup reply reached it (while the request is in flight, or its reply lost, a
+        # poll that is already running may still hand out what it holds)
+        tdel = {e[0]: e[1] for e in world.log.events if e[2] == "delivered"}
+        leaves = [{"seq": sq, "t": t} for (sq, t) in ctx["leave_acks"].get(m.cid, [])]
+        if leaves and any(e["kind"] == "leave" and e.get("client") == m.cid and e.get("code") == 0
+                          for e in cl.groups.ledger):
             syncs = [e["seq"] for e in cl.groups.ledger if e["kind"] == "sync_resp"
                      and e.get("client") == m.cid and e.get("code") == 0]
+            # requests of this member on the wire: the coordination routine closes the gate
+            # only when the one it is waiting for (typically an auto-commit) has been answered
+            writes = [(e[0], e[3], e[6]) for e in world.log.events
+                      if e[2] == "c_write" and e[7] == m.cid and e[4] in ("OffsetCommit", "OffsetFetch")]
+            answered = {(e[3], e[5][1]): (e[0], e[1]) for e in world.log.events
+                        if e[2] == "c_recv" and isinstance(e[5], tuple)}
             for d in m.deliveries:
-                lv = [e for e in leaves if e["seq"] < d[0] and e["t"] < world.log.events[0][1] + 10**9]
+                lv = [e for e in leaves if e["seq"] < d[0] and e["t"] + 1e-3 < tdel.get(d[0], 0)]
                 if not lv:
                     continue
                 last = lv[-1]
                 if any(last["seq"] < sq < d[0] for sq in syncs):
+                    continue
+                busy = False
+                for (wseq, conn, corr) in writes:
+                    if wseq < last["seq"]:
+                        a = answered.get((conn, corr))
+                        if a is None or (a[0] > last["seq"] and a[1] + 1e-3 >= tdel.get(d[0], 0)):
+                            busy = True
+                            break
+                if busy:
+                    world.probe("delivered_after_leaving_while_commit_in_flight")
                     continue
                 world.violation("C05" if prop != "C04" else prop, "record_delivered_after_leaving_group", {
                     "member": m.cid, "tp": list(d[1]), "offset": d[2], "left_at_seq": last["seq"],
